@@ -41,6 +41,8 @@ INDEP_FAMILIES = [
     [["."], ["a"], ["a_"], ["_"]],
 ]
 RISKY_FAMILIES = [
+    [["a"], ["a.b"], ["a.1"], ["b"]],
+    [["k"], ["k.f"], ["k.z.z"], ["k-"]],
     [["k"], ["k." + HEX0], ["k." + HEX1], ["j"]],
     [["a"], ["a.b"], ["a.b.c"], ["b"]],
     [["a_b", "c"], ["a", "b_c"], ["a", "b", "c"], ["a_b_c"]],
@@ -95,6 +97,15 @@ def directed():
             _op("pop", a, "io"), _op("remval", ab, "y", "ioset"), _op("get", ab, "ioset"), _op("get", ab, "io"),
             _op("add", ["a.b"], "v", "io"), _op("add", ["a.b"], "v", "ioset"), _op("pop", ["a.b"], "ioset"), _op("get", ["a.b"], "io"),
             _op("rem", a, "plain"), _op("get", a, "io"), _op("cnt", a, "plain"), _op("cnt", a, "io")]})
+    # keys K and K' = K + '.' + rest where rest does not look like an ordinal: only getLast(K) is affected by D27;
+    # add / put / pin / get / pop / rem / cnt on K and K' must still behave as the dictionary
+    for kind in ("io", "ioset"):
+        for kp in ("a.b", "a.1", "a.f", "a.z.z"):
+            out.append({"kind": kind, "ops": [
+                _op("add", ["a"], "v"), _op("add", ["a"], "w"), _op("add", [kp], "p"), _op("put", ["a"], ["x", "y"]), _op("get", ["a"]),
+                _op("add", ["a"], "z"), _op("put", [kp], ["q", "r"]), _op("get", [kp]), _op("cnt", ["a"]), _op("pop", ["a"]),
+                _op("put", ["a"], ["u"]), _op("get", ["a"]), _op("getfirst", ["a"]), _op("pin", ["a"], ["m", "n"]), _op("put", ["a"], ["o"]),
+                _op("get", ["a"]), _op("rem", [kp]), _op("put", ["a"], ["t"]), _op("get", ["a"]), _op("get", [kp])]})
     # witnesses of the D27 classes
     out.append({"kind": "io", "ops": [_op("add", ["k"], "v0"), _op("add", ["k"], "v1"),
                                        _op("add", ["k." + HEX0], "w"), _op("get", ["k"])]})
